@@ -215,6 +215,28 @@ func init() {
 	intrinsics["vHash"] = func(fr *frame, args []value) value {
 		return uninterpretedHash(nameArg(args[0]), cellsOf(args[1]), int(asInt64(args[2])))
 	}
+	// vWatchFields(ptr): register every field cell of the struct ptr points to as shared
+	intrinsics["vWatchFields"] = func(fr *frame, args []value) value {
+		p := args[0].(iface).v.(*value)
+		st, ok := (*p).(structure)
+		if !ok {
+			panic(engineErr("vWatchFields: not a pointer to struct"))
+		}
+		for k := range st {
+			watched[&st[k]] = true
+		}
+		return nil
+	}
+	// vSetAccessHook(f): f runs (as the second thread) before every load from a watched cell
+	intrinsics["vSetAccessHook"] = func(fr *frame, args []value) value {
+		watchHook = args[0]
+		return nil
+	}
+	intrinsics["vClearAccessHook"] = func(fr *frame, args []value) value {
+		watchHook = nil
+		return nil
+	}
+	intrinsics["vWatchedReads"] = func(fr *frame, args []value) value { return watchReads }
 	intrinsics["vPrint"] = func(fr *frame, args []value) value {
 		fmt.Fprintln(os.Stderr, "vPrint:", toString(args[0]))
 		return nil
